@@ -429,6 +429,11 @@ func jsonFields(t reflect.Type, schemas map[reflect.Type]*Schema) []jsonField {
 				var override *Schema
 				if sf.Anonymous && name == "" && ft.Kind() == reflect.Struct {
 					override = schemas[sf.Type]
+					if override == nil {
+						// An embedded *T is replaced by the schema for T,
+						// like every other field of type *T.
+						override = schemas[ft]
+					}
 				}
 				if name != "" || !sf.Anonymous || ft.Kind() != reflect.Struct || override != nil {
 					tagged := name != ""
